@@ -27,7 +27,9 @@ Catalog == <<
       Plain(<<T("b")>>, << << <<"b">>, <<"b","v1">>, <<"b","v2">> >> >>, <<>>),
       Plain(<<T("c"), TT>>, << << <<"c","p">> >>, << <<"c","p","q">> >> >>, <<>>),
       Plain(<<T("m"), ST, T("k"), ST>>, << << <<"m","1","k","1">> >>, << <<"m","1","k","2">>, <<"m","1","k","2","x">> >> >>, <<>>),
-      Plain(<<T(PrefixX), ST>>, << << <<PrefixX,"1">> >> >>, <<>>) >>],
+      Plain(<<T(PrefixX), ST>>, << << <<PrefixX,"1">> >> >>, <<>>),
+      \* a rule written in the negated form whose next word begins with letters of the negation word: its removal command is `nx 1`
+      Plain(<<T(Prefix), T("nx"), ST>>, << << <<Prefix,"nx","1">> >> >>, <<>>) >>],
   [name |-> "nest", rules |-> <<
       Plain(<<T("a"), ST>>, << << <<"a","1">> >> >>, <<>>),
       Plain(<<T("blk"), ST>>, << << <<"blk","1">> >> >>, <<
